@@ -14,7 +14,7 @@ namespace Opt
 
 /-- places where the optimizer deviated from property C02 at the pinned snapshot, as switches.
     `true` = the repair is in place (what /repo does since the `fix:` commits f3d7630, 072d9f0, 9249c3a,
-    69d5a9a and d5aa4cc); `false` = the code as it was (kept for the witnesses). -/
+    69d5a9a, d5aa4cc and 426e727); `false` = the code as it was (kept for the witnesses). -/
 structure Flags where
   /-- (#3) ast.Walk descends into `SliceNode.Node` (as is: only From/To are walked) -/
   walkSliceNode : Bool := false
@@ -37,7 +37,7 @@ structure Flags where
 /-- the code as it is now: every repair in place -/
 def Flags.asIs : Flags :=
   { walkSliceNode := true, inArrayStrGuard := true, inRangeKindGuard := true, inRangeSimpleLeft := true,
-    foldPlainOnly := true, constExprConvert := true }
+    foldPlainOnly := true, constExprConvert := true, constRangeNoOverflow := true }
 /-- the code as it was before the `fix:` commits -/
 def Flags.asWas : Flags := {}
 abbrev Flags.repaired : Flags := Flags.asIs
